@@ -576,6 +576,19 @@ func runExchange(t *verifsim.Tape, cfg engine.Config, prop string) *engine.Outco
 			goPayload = pv.Interface()
 		}
 		w.invoked, w.unhandled, w.authLog = nil, nil, nil
+		sys.Net.Cfg.Reroute = nil
+		if len(m.Routes) > 1 && t.Draw("use-second-route", 2) == 0 {
+			alt, base := m.Routes[1], s.Path
+			sys.Net.Cfg.Reroute = func(r *http.Request) bool {
+				r.Method = alt.Verb
+				r.URL.Path = base + "/r2" + strings.TrimPrefix(r.URL.Path, base)
+				if r.URL.RawPath != "" {
+					r.URL.RawPath = base + "/r2" + strings.TrimPrefix(r.URL.RawPath, base)
+				}
+				return true
+			}
+			o.Features["second_route_used"]++
+		}
 		curM = m
 		if mode != "valid" {
 			curM = nil // elements are only dropped from otherwise valid requests
